@@ -71,14 +71,18 @@ func runConc(c *ctx) error {
 	// --only impactrot: just the rotation inside a round of the impact collector (C03: impact rates
 	// reach the archived week unshifted), all sampling filters off
 	impactrot := c.only == "impactrot"
-	if c.part("gaps") || impactrot {
+	// --only syncrot: just the rotation between the two critical sections of the sync handler (C10: the
+	// reply's offset and bitfield are one state of the server)
+	focus := map[string][2]string{"impactrot": {"impact:before-update", "rotate"}, "syncrot": {"sync:between", "rotate"}}
+	fo, focused := focus[c.only]
+	if c.part("gaps") || focused {
 		nsc := 0
 		for _, gap := range gaps {
 			for _, op := range menu {
-				if impactrot && !(gap == "impact:before-update" && op == "rotate") {
+				if focused && !(gap == fo[0] && op == fo[1]) {
 					continue
 				}
-				if c.tier != "thorough" && (nsc+int(c.seed))%2 == 1 && gap != "impact:before-update" {
+				if c.tier != "thorough" && !focused && (nsc+int(c.seed))%2 == 1 && gap != "impact:before-update" {
 					nsc++
 					continue
 				}
